@@ -45,6 +45,8 @@ type zzExtra struct {
 	Expect func(in *zzXIn) zzXExpect
 	// Invalid: a text the language rejects; the compiler must refuse it
 	Invalid bool
+	// BalEUR: accounts that also hold an arbitrary EUR/2 balance
+	BalEUR []string
 }
 
 func zzM(asset string, v *big.Int) string { return asset + " " + v.String() }
@@ -123,6 +125,33 @@ var zzExtras = []zzExtra{
 			ok := verifhook.And(verifhook.Le(fromA, verifhook.Max(zzZero, in.bal["a"])), verifhook.Le(fromB, verifhook.Max(zzZero, in.bal["b"])))
 			return zzXExpect{accept: ok, posts: []zzXPost{{"a", "c", fromA}, {"b", "c", fromB}}}
 		}},
+	{Name: "amount literal written with leading zeros",
+		Script: "send [USD/2 010] (\n  source = @a\n  destination = @b\n)\n",
+		Bal:    []string{"a"},
+		Expect: func(in *zzXIn) zzXExpect {
+			ten := big.NewInt(10)
+			return zzXExpect{accept: verifhook.Le(ten, verifhook.Max(zzZero, in.bal["a"])), posts: []zzXPost{{"a", "b", ten}}}
+		}},
+	{Name: "monetary variable whose amount has leading zeros",
+		Script: "vars {\nmonetary $m\n}\nsend $m (\n  source = @a\n  destination = @b\n)\n",
+		Bal:    []string{"a"}, Vars: map[string]string{"m": "USD/2 0100"},
+		Expect: func(in *zzXIn) zzXExpect {
+			h := big.NewInt(100)
+			return zzXExpect{accept: verifhook.Le(h, verifhook.Max(zzZero, in.bal["a"])), posts: []zzXPost{{"a", "b", h}}}
+		}},
+	{Name: "monetary variable whose amount has a base prefix",
+		Script: "vars {\nmonetary $m\n}\nsend $m (\n  source = @world\n  destination = @b\n)\n",
+		Vars:   map[string]string{"m": "USD/2 0x10"},
+		Expect: func(in *zzXIn) zzXExpect { return zzXExpect{accept: false} }},
+	{Name: "monetary variable whose amount has digit separators",
+		Script: "vars {\nmonetary $m\n}\nsend $m (\n  source = @world\n  destination = @b\n)\n",
+		Vars:   map[string]string{"m": "USD/2 1_000"},
+		Expect: func(in *zzXIn) zzXExpect { return zzXExpect{accept: false} }},
+	{Name: "everything of one asset, with an overdraft stated in another asset",
+		Script: "send [EUR/2 1] (\n  source = @a allowing unbounded overdraft\n  destination = @c\n)\nsend [USD/2 *] (\n  source = @a allowing overdraft up to [EUR/2 5]\n  destination = @b\n)\n",
+		Bal:    []string{"a"}, BalEUR: []string{"a"},
+		// the second send says USD/2: an allowance in EUR/2 cannot make it move EUR/2
+		Expect: func(in *zzXIn) zzXExpect { return zzXExpect{accept: false} }},
 	{Name: "amount is a difference",
 		Script: "vars {\nmonetary $x\nmonetary $y\n}\nsend $x - $y (\n  source = @a\n  destination = @b\n)\n",
 		Mon:    []string{"x", "y"}, Bal: []string{"a"},
@@ -227,6 +256,9 @@ func ZZ_C08X(shape int) {
 		b := verifhook.BigInt("bal_" + a)
 		in.bal[a] = b
 		acc(a).Balances["USD/2"] = b
+	}
+	for _, a := range x.BalEUR {
+		acc(a).Balances["EUR/2"] = verifhook.BigInt("eur_" + a)
 	}
 	for a, md := range x.Meta {
 		acc(a).Metadata = md
